@@ -438,7 +438,8 @@ def contracts(reg):
             return z3.BoolVal(True)
         if c.exc.attrs.get("site") == "Path.stat":
             return z3.BoolVal(True)      # size unknown: stat() itself failed
-        return z3.Not(too_large(c))
+        # (the function's own ExtractionFileTooLargeError is not "anything else": it must satisfy the first alternative)
+        return z3.And(z3.Not(too_large(c)), z3.Or(c.exc.tidx != c.ex.uni.index[TOOLARGE], z3.BoolVal(not own_raise(c))))
 
     out.append(FnContract(
         target=f"{readfile.INIT}::read_file",
@@ -486,7 +487,8 @@ def contracts(reg):
         generator=True,
         ensures=[("accepted-only-within-archive-limit", lambda c: z3.Not(big7(c)))],
         raises=[Raises(TOOLARGE, when=z7_toolarge, label="archive above the limit: refused before it is parsed"),
-                Raises("Exception", sub=True, when=lambda c: z3.BoolVal(True) if c.exc is None else z3.Not(big7(c)))],
+                Raises("Exception", sub=True, when=lambda c: z3.BoolVal(True) if c.exc is None else
+                       z3.And(z3.Not(big7(c)), z3.Or(c.exc.tidx != c.ex.uni.index[TOOLARGE], z3.BoolVal("site" in c.exc.attrs))))],
         note=f"archive size > {max7z} bytes  <=>  ExtractionFileTooLargeError before SevenZipFile is constructed",
     ))
     EXECUTOR_KW[f"{ARCH}::_extract_from_7z_optimized"] = {"abstract": True, "inline_calls": False, "inline_local": True, "helper_arg_sorts": ("BytesIO",)}
@@ -674,9 +676,35 @@ def _cost(name):
     return run
 
 
+def _native_scope(which):
+    """BOUNDED: a directed native scope of the replayer, run on every check.  A failing input is a violation with its replay; no
+    failing input is `bounded-ok` (never counted as discharged)."""
+    def run(repo, tier):
+        import json
+        import os
+        import subprocess
+        oid = f"C12/package/native-scope#{which}"
+        root = os.path.dirname(os.path.dirname(os.path.abspath(__file__)))
+        try:
+            p = subprocess.run(["/venv/bin/python", os.path.join(root, "replay", "run.py")], input=json.dumps({"property": "C12", "obligation": oid, "extra": {"scope": which}, "repo": repo}),
+                               capture_output=True, text=True, timeout=600, cwd=root, env=dict(os.environ, VERIF_REPO=repo))
+            lines = [l for l in p.stdout.splitlines() if l.startswith("{")]
+            res = json.loads(lines[-1]) if lines else {"reproduced": False, "note": "replayer gave no result: " + (p.stderr or "")[-300:], "crashed": True}
+        except Exception as e:  # noqa
+            res = {"reproduced": False, "note": f"replayer failed: {e}", "crashed": True}
+        crashed = res.get("crashed") or str(res.get("note", "")).startswith("replayer crashed")
+        status = "refuted" if res.get("reproduced") else ("unknown" if crashed else "bounded-ok")
+        reason = (f"{res.get('inputs')}: expected {res.get('expected')}, observed {res.get('observed')}" if res.get("reproduced") else str(res.get("note", "")))[:600]
+        return {"obligations": [{"id": oid, "kind": "bounded", "bounded": True, "bound": "directed native scope (replay/C12.py::native_scope)", "status": status, "vcs": 1,
+                                 "seconds": 0.0, "backends": {"native": 1}, "witness": None, "reason": reason, "loc": "replay/C12.py", "function": "",
+                                 "replay_hint": {"scope": which}}], "functions": []}
+    run.__name__ = f"native_scope[{which}]"
+    return run
+
+
 def _extra():
     from contracts import c12_cost
-    return [policy, _cost("self_suffix_obligations"), _cost("xml_policy"), _cost("nested_scan_obligations")] + [_carve_task(k) for k in c12_cost.carve_tasks()]
+    return [_native_scope("explicit-limits"), _native_scope("repeat-attribute-classes"), policy, _cost("self_suffix_obligations"), _cost("xml_policy"), _cost("nested_scan_obligations")] + [_carve_task(k) for k in c12_cost.carve_tasks()]
 
 
 EXTRA = _extra()
@@ -708,7 +736,7 @@ def known_findings(kf, violations, repo, tier):
 
 TRUSTED = ["defusedxml forbids entity expansion", "stat().st_size is the size read_file would read"]
 ASSUMED_MODELS = ["pathlib.Path.stat/st_size", "open()", "io.BytesIO.seek/tell (position, SEEK_END = size)", "router contracts (C07)"]
-BOUNDED = []
+BOUNDED = ["native-scope#explicit-limits and native-scope#repeat-attribute-classes: directed native runs of the replayer on every check (never counted as proved)"]
 ASSUMPTIONS = ["peak memory and run time as quantities are not decided (not expressible as contracts); what is decided are the structural causes of super-linear cost: "
                "unbounded repeat expansion (amp-bounded#repeat-site), overlapping carving of a scanned buffer (amp-bounded#carve-while-k: copies of different iterations "
                "are disjoint, so total copy size <= len(buffer)), per-iteration re-slicing (no-self-suffix-rebinding), nested re-scans (nested-scans-skip-the-part-handed-out); "
